@@ -83,13 +83,25 @@ def _to_le(ty, raw, be):
     return raw[::-1]
 
 
+IMPL = []
+
+
 def observe(data):
     from nptdms import TdmsFile
+    del IMPL[:]
+    try:
+        from nptdms import _verif
+        _verif.set_sink(lambda rec: IMPL.append(rec) if rec.get("event") == "segment" else None)
+    except ImportError:
+        _verif = None
     try:
         f = TdmsFile.read(io.BytesIO(data), raw_timestamps=True)
     except Exception as ex:  # noqa
         return {"error": True, "exception": "%s: %s" % (type(ex).__name__, ex), "groups": [], "gchans": [], "len": [],
                 "ty": [], "props": []}
+    finally:
+        if _verif is not None:
+            _verif.set_sink(None)
     v = proj.project_file(f, data=False)
     return {"error": False, "groups": v["groups"], "gchans": [[g, v["gchans"][g]] for g in v["groups"]],
             "len": [[c, min(d["len"], 10 ** 9)] for c, d in v["chans"].items()],
@@ -130,12 +142,20 @@ def run_trace(chk, label):
             skipped[name] = why
             continue
         t["obs"] = observe(data)
+        t["impl"] = [{"num_chunks": min(r["num_chunks"], 10 ** 9),
+                      "objects": [[o[0], bool(o[1]), min(o[2], 10 ** 9)] for o in r["objects"]]} for r in IMPL]
         traces.append(t)
     if not traces:
         chk.observe("segment_traces_unavailable")
         return
-    slim = [{k: t[k] for k in ("id", "paths", "chans", "groups", "parents", "file", "obs")} for t in traces]
-    accepted, where, tres = trace.validate("Trace_Segments", "Trace_Segments.cfg", slim, label, workers=8)
+    slim = [{k: t[k] for k in ("id", "paths", "chans", "groups", "parents", "file", "obs", "impl")} for t in traces]
+    refined = set()
+    accepted, where, tres = trace.validate("Trace_Segments", "Trace_Segments.cfg", slim, label, workers=8,
+                                           extra_marks={"REFINED": refined})
+    chk.cov["refinement"] = {"what": "per-segment object list and chunk count logged by the NPTDMS_VERIF hooks vs the "
+                                     "reader model's step (diagnostic only)",
+                             "traces_with_hook_records": sum(1 for t in traces if t["impl"]),
+                             "traces_refined_stepwise": len(refined)}
     chk.cov["tlc_runs"].append({"config": "Trace_Segments (repository scenario + data files)", "traces": len(traces),
                                 "accepted": len(accepted), "skipped": skipped, "distinct_states": tres.distinct})
     chk.cov["states"] += tres.distinct
